@@ -6,9 +6,14 @@ VERIF = os.path.dirname(os.path.dirname(os.path.abspath(__file__)))
 
 
 def main():
+    import io
+    import sys
     res = json.load(open(os.path.join(VERIF, "seeded", "RESULTS.json")))
-    print("| seeded change | what it breaks (trigger) | own check | signatures (first) | other checks that fire |")
-    print("|---|---|---|---|---|")
+    buf = io.StringIO()
+    _stdout = sys.stdout
+    sys.stdout = buf
+    print("| seeded change | what it breaks (trigger) | own check | signatures (first) |")
+    print("|---|---|---|---|")
     for name in sorted(res):
         r = res[name]
         meta = json.load(open(os.path.join(VERIF, "seeded", name, "meta.json")))
@@ -19,7 +24,21 @@ def main():
         if len(summ) > 230:
             summ = summ[:227] + "…"
         verdict = {1: "**fires**", 0: "silent", 2: "inconclusive", 3: "no build"}.get(own.get("exit"), "?")
-        print("| %s | %s | %s | `%s` | %s |" % (name, summ, verdict, sigs[:140], ", ".join(others) or "—"))
+        print("| %s | %s | %s | `%s` |" % (name, summ, verdict, sigs[:140]))
+    sys.stdout = _stdout
+    table = buf.getvalue()
+    fired = sum(1 for r in res.values() if r.get("checks", {}).get(r["property"], {}).get("exit") == 1)
+    table = "%d seeded changes, %d reported by the check of their property.\n\n" % (len(res), fired) + table
+    if "--write" in sys.argv:
+        p = os.path.join(VERIF, "DESIGN.md")
+        s = open(p).read()
+        a, b = "<!-- seeded-table:begin -->", "<!-- seeded-table:end -->"
+        i, j = s.index(a) + len(a), s.index(b)
+        s = s[:i] + "\n" + table + s[j:]
+        open(p, "w").write(s)
+        print("DESIGN.md updated: %d changes, %d fired" % (len(res), fired))
+    else:
+        print(table)
 
 
 if __name__ == "__main__":
